@@ -649,6 +649,30 @@ func genC06(w *bufio.Writer, r *rng, thorough bool) {
 			emit(w, "pt.decunc %s%s00 %s", be32(x), be32(yl), t)                        // trailing byte
 		}
 	}
+	// common.ReadPoint over scripted readers: full, truncated (also with zero-padding-valid prefixes), chunked
+	for _, h := range pointPool(r, 40) {
+		b := mustUnhex(h)
+		emit(w, "rdpt %s - 0 -", h)
+		emit(w, "rdpt %s 1,1,1,1,1,1,1,1,1,1,1,1,1,1,1,1,1,1,1,1,1,1,1,1,1,1,1,1,1,1,1,1 1 -", h)
+		emit(w, "rdpt %s 16,16 1 -", h)
+		emit(w, "rdpt %s00 31,5 0 -", h)
+		for cut := 31; cut >= 29; cut-- {
+			emit(w, "rdpt %s - 0 -", hx(b[:cut]))
+			emit(w, "rdpt %s - 1 -", hx(b[:cut]))
+		}
+		emit(w, "rdpt %s - 0 %d", h, r.intn(33))
+	}
+	// encodings ending in zero bytes, then truncated: zero padding must not resurrect them
+	found := 0
+	for k := 1; k < 60000 && found < 4; k++ {
+		p := genMultiple(k)
+		b := p.Bytes()
+		if b[31] == 0 {
+			found++
+			emit(w, "rdpt %s - 0 -", hx(b[:31]))
+			emit(w, "pt.dec %s", hx(b[:31]))
+		}
+	}
 	// valid encodings of structured elements
 	for _, h := range pointPool(r, 40) {
 		emit(w, "pt.dec %s", h)
@@ -1653,6 +1677,18 @@ func genC10(w *bufio.Writer, r *rng, thorough bool) {
 	}
 	for i := 0; i < 20; i++ {
 		emit(w, "serde %s - 0 -", hx(r.bytes(576)))
+	}
+	// the two field readers on their own
+	for i := 0; i < 30; i++ {
+		v := r.frBig()
+		if r.coin(30) {
+			v = new(big.Int).Add(v, rMod)
+		}
+		b := le32(new(big.Int).Mod(v, two256))
+		emit(w, "rdsc %s %s", hx(b), scripts[r.intn(2)])
+		emit(w, "rdsc %s 1,2,3,4,5,6,7,8 %d -", hx(b), r.intn(2))
+		emit(w, "rdsc %s - %d -", hexOrDash(b[:r.intn(32)]), r.intn(2))
+		emit(w, "rdsc %s - 0 %d", hx(b), r.intn(33))
 	}
 }
 
